@@ -136,7 +136,7 @@ TRACE_INVS = ["C01_AtMostOnce", "C01_RealTimeFIFO", "C01_NoOverlap", "C01_Fold",
               "C05_KeepAlive", "C05_DrainOnDrop", "C05_UpgradeDead", "C06", "C07", "C08", "C09_ExactlyOnce", "C09_Delivered", "C09_CommonOrder", "C09_PublisherOrder", "C09_BrokerNeverFails", "C10", "C11", "C12", "C13", "C13_FairSelect", "C14", "C15", "C16", "C17"]
 
 
-def validate_shard(traces, dev, workdir, tag, timeout=1500, profile="debug"):
+def validate_shard(traces, dev, workdir, tag, timeout=1500, profile="debug", stop=None, note=None, max_rounds=12):
     """Validate the concatenation of `traces` with TLC. Returns a list of per-trace results
     (same order): {"ok": True} | {"ok": False, "kind": "reject"|"invariant", ...}."""
     stage_spec(workdir)
@@ -144,6 +144,12 @@ def validate_shard(traces, dev, workdir, tag, timeout=1500, profile="debug"):
     todo = list(range(len(traces)))
     rounds = 0
     while todo:
+        # every divergence costs one more TLC run over the rest of the shard: stop once the verdict is settled (`stop`:
+        # enough divergences attributed to the property being checked were seen) or the shard is hopeless
+        if (stop is not None and stop()) or rounds >= max_rounds:
+            for i in todo:
+                results[i] = {"ok": True, "skipped": True}
+            break
         rounds += 1
         sub = [traces[i] for i in todo]
         actors, clients = names_in(sub)
@@ -188,6 +194,8 @@ def validate_shard(traces, dev, workdir, tag, timeout=1500, profile="debug"):
             for i in todo[:k]:
                 results[i] = {"ok": True}
             results[todo[k]] = {"ok": False, "kind": "invariant", "invariant": m.group(1), "offset": off, "props": [m.group(1)[:3]]}
+            if note:
+                note(results[todo[k]])
             todo = todo[k + 1:]
             continue
         m = re.search(r'<<"REJECT", (\d+), "(.*)", "(.*)", "(.*)">>', out)
@@ -200,6 +208,8 @@ def validate_shard(traces, dev, workdir, tag, timeout=1500, profile="debug"):
             for i in todo[:k]:
                 results[i] = {"ok": True}
             results[todo[k]] = {"ok": False, "kind": "reject", "offset": off, "event": ev, "guards": sorted(guards), "props": sorted(props)}
+            if note:
+                note(results[todo[k]])
             todo = todo[k + 1:]
             continue
         m = re.search(r"(Error: .*?)(?:Error: The behavior|$)", out, re.S)
@@ -207,13 +217,22 @@ def validate_shard(traces, dev, workdir, tag, timeout=1500, profile="debug"):
     return results
 
 
-def validate(traces, dev, workdir, shard=30, jobs=8, profile="debug"):
+def validate(traces, dev, workdir, shard=30, jobs=8, profile="debug", target=None, enough=3):
+    """`target`: the property being decided; once `enough` divergences attributed to it were found the rest is skipped."""
     shards = [list(range(i, min(i + shard, len(traces)))) for i in range(0, len(traces), shard)]
     results = [None] * len(traces)
+    hits = [0]
+
+    def note(r):
+        if target is not None and target in r.get("props", []):
+            hits[0] += 1
 
     def one(si):
         idx = shards[si]
-        rs = validate_shard([traces[i] for i in idx], dev, os.path.join(workdir, f"sh{si}"), f"s{si}", profile=profile)
+        if target is not None and hits[0] >= enough:
+            return idx, [{"ok": True, "skipped": True} for _ in idx]
+        rs = validate_shard([traces[i] for i in idx], dev, os.path.join(workdir, f"sh{si}"), f"s{si}", profile=profile,
+                            stop=(lambda: hits[0] >= enough) if target is not None else None, note=note)
         return idx, rs
 
     with ThreadPoolExecutor(max_workers=jobs) as ex:
